@@ -33,6 +33,7 @@ Compare(op, a, b) ==
 
 RECURSIVE Eval(_, _)
 RECURSIVE EvalAll(_, _)
+RECURSIVE WhereSel(_, _, _, _)
 \* evaluate a sequence of expressions: [r |-> "val", v |-> Seq(Value)] | err | unspec
 EvalAll(es, env) ==
   IF es = <<>> THEN [r |-> "val", v |-> <<>>]
@@ -72,6 +73,12 @@ Eval(e, env) ==
                        ELSE LET b == Eval(e.b, env) IN
                          IF b.r # "val" THEN b
                          ELSE IF IsUnspec(b.v) THEN EUnspec ELSE EVal(Bool(Truthy(b.v)))
+    [] e.t = "xwhere" ->
+         LET r == Eval(e.e, env) IN
+           IF r.r # "val" THEN r
+           ELSE IF r.v.k # "arr" THEN EUnspec
+           ELSE LET w == WhereSel(r.v.v, e.var, e.c, env) IN
+             IF w.r = "val" THEN EVal(Arr(w.v)) ELSE w
     [] e.t = "filter" ->
          LET r == Eval(e.e, env) IN
            IF r.r # "val" THEN r
@@ -79,6 +86,17 @@ Eval(e, env) ==
              IF as.r # "val" THEN as
              ELSE LET f == Filter(e.name, r.v, as.v) IN
                IF f.r = "val" THEN EVal(f.v) ELSE IF f.r = "err" THEN EErr ELSE EUnspec
+
+\* lqx_where (a filter of the embedding program whose last parameter is an expressions.Closure: the argument is the
+\* SOURCE of an expression, evaluated once per element with the element bound to a name on top of the current bindings;
+\* the elements for which it is truthy are kept).  [r |-> "val", v |-> Seq] | err | unspec
+WhereSel(items, var, cond, env) ==
+  IF items = <<>> THEN [r |-> "val", v |-> <<>>]
+  ELSE LET h == Eval(cond, [x \in DOMAIN env \cup {var} |-> IF x = var THEN Head(items) ELSE env[x]]) IN
+    IF h.r # "val" THEN h
+    ELSE IF IsUnspec(h.v) THEN EUnspec
+    ELSE LET t == WhereSel(Tail(items), var, cond, env) IN
+      IF t.r # "val" THEN t ELSE [r |-> "val", v |-> (IF Truthy(h.v) THEN <<Head(items)>> ELSE <<>>) \o t.v]
 
 \* pipeline law of C08: a filter chain equals doing the steps one at a time
 RECURSIVE IsPipeline(_)
